@@ -69,15 +69,24 @@ impl ApplyState {
         })
     }
 
+    /// Append a line to the log file, if there is one.
+    ///
+    /// The log describes the operation; it must never change its course. A line that cannot be
+    /// written (disk full, I/O error) is dropped: propagating the error from here used to abort
+    /// the apply in the middle of the rename phase WITHOUT the rollback that every real failure
+    /// gets, or after all changes had been made.
+    #[allow(clippy::unnecessary_wraps)]
     fn log(&mut self, message: &str) -> Result<()> {
         if let Some(ref mut file) = self.log_file {
-            writeln!(
+            let written = writeln!(
                 file,
                 "[{}] {}",
                 chrono::Local::now().format("%Y-%m-%d %H:%M:%S"),
                 message
-            )?;
-            file.flush()?;
+            );
+            if written.is_ok() {
+                let _ = file.flush();
+            }
         }
         Ok(())
     }
